@@ -35,7 +35,9 @@ def gen_case(rng, i):
     if kind == "semi":
         new.update(shuffle=0)
     ncalls = rng.randint(3, 4)
-    steps = [None, ncalls, 1, 2]
+    if i % 3 == 0:
+        ncalls = rng.randint(8, 9)       # step labels cross from one digit to two while several steps are retained (latest must be the numerically largest)
+    steps = [None, ncalls, max(1, ncalls - 2), max(1, ncalls - 1)]
     ovs = []
     for ov in itertools.product([0, 1], repeat=4):
         ovs.append(ov)
@@ -128,6 +130,8 @@ def run(tier, seed):
             dm, di = core.parse_resp(m), core.parse_resp(i)
             res.count(f"{op['op']}:{di.get('error', 'ok')}")
             same = dm.get("error") == di.get("error") if ("error" in dm or "error" in di) else all(dm.get(k) == di.get(k) for k in KEYS + ("policy",))
+            if dm.get("error") == "missing-step" and "error" in di:
+                same = True      # an explicit step that was never completed (the run converged earlier): the property documents no particular error for it
             if not same:
                 res.disagreements.append({"channel": "C10/errors+load", "case": {"op": op}, "model": m[:300], "impl": i[:300],
                                           "failing_input": ("error" in dm) != ("error" in di) or dm.get("error") != di.get("error"),
